@@ -244,7 +244,14 @@ class Builder:
         nodes = {nd[1]: nd for nd in R.metavar_nodes(t[1])}
         plugs = []
         for i in ids:
-            if i in nodes and self.draw(st.integers(0, 9)) < 7:
+            if i in nodes and any(nodes[i][2:6]) and self.draw(st.integers(0, 9)) < 3:
+                # admissible plug from the *other* namespace: an element variable whose id is declared fresh/polar as a set
+                # variable (and vice versa) satisfies the constraint but must not be confused with it
+                nd = nodes[i]
+                cands = [R.E(x) for x in nd[3] + nd[4] + nd[5]] + [R.S(x) for x in nd[2]] + [R.A(R.Y(0), R.E(x)) for x in nd[3]]
+                cands = [c for c in cands if gens.admissible_for(nd, c)]
+                plugs.append(self.draw(st.sampled_from(cands)) if cands else self.pattern(1))
+            elif i in nodes and self.draw(st.integers(0, 9)) < 7:
                 # an admissible plug (constraint-respecting) most of the time
                 if self.draw(st.booleans()):
                     plugs.append(gens.draw_admissible_concrete(self.draw, nodes[i], self.cfg, 2))
@@ -280,6 +287,11 @@ class Builder:
 
     def g_quantifier_inst(self):
         p = self.pattern(2)
+        if self.draw(st.integers(0, 3)) == 0:
+            # phi0 := ... constrained metavariable ... so that the pushed [x1/x0] meets declared-fresh shortcuts
+            k = self.draw(st.sampled_from(self.cfg.ids))
+            mv = self.draw(st.sampled_from([R.MV(1, (), (0,), (), ()), R.MV(1, (0,), (), (), ()), R.MV(2, (), (k,), (k,), ()), R.MV(1, (k,), (0,), (), ())]))
+            p = self.draw(st.sampled_from([mv, R.NOT(R.I(mv, R.E(0))), R.A(mv, R.E(0)), R.EX(1, R.I(mv, R.E(0)))]))
         self.emit(inst_stream([15], [(0, p)]), 'Quantifier-inst')
 
     GADGETS = ['g_push_pattern', 'g_axiom', 'g_refl', 'g_refl', 'g_weaken', 'g_generalize', 'g_generalize',
